@@ -3,6 +3,7 @@ use crate::hubcore::*;
 use crate::unbondlc::UnbondLc;
 use crate::fee::Fee;
 use crate::reward::Reward;
+use crate::token::Token;
 use crate::enumer::{C12Enum, C17Enum};
 use crate::runner::*;
 use crate::chain::*;
@@ -191,6 +192,55 @@ pub fn build(id: &str, tier: Tier) -> Option<Check> {
             assumptions: envelope(),
             essential: vec!["c13_removal_checked", "c13_redelegation_checked", "c13_redelegation_blocked", "c13_last_validator"],
         },
+        "C18" => {
+            let mut jobs = vec![];
+            for tok in [BSEI, STSEI] {
+                let mut sweep = Token::new(tok, "instantiate-sweep");
+                sweep.sweep_len = Some(3);
+                sweep.rich = false;
+                jobs.push(bfs(sweep, tier.pick(2, 3), secs / 4.0));
+                let mut ops = Token::new(tok, "ops");
+                ops.seeds = vec![vec![], vec![(ALICE, 5), (BOB, 1)]];
+                jobs.push(bfs(ops, tier.pick(4, 5), secs / 2.0));
+            }
+            Check {
+                id: "C18",
+                jobs,
+                rule: "per token (bSei on cw20-legacy, stSei on cw20-base): start states = every instantiate message whose initial_balances is a list of length 0..=3 over {alice, bob} x {0,1,5} (repeated addresses included; rejected messages create no state), explored 1-2 steps; plus every sequence of <= D calls of every cw20 entry point (transfer, send to hub / non-hub, mint and burn by hub / holder / stranger, increase and decrease allowance with every expiration shape around the current block, TransferFrom / SendFrom / BurnFrom by the spender and by strangers, amounts 0, 1, 2, all, all+1, block advance) from two seeds; non-trivial = every distinct state (conservation) and every successful transaction (supply delta, allowance ledger)".into(),
+                assumptions: envelope(),
+                essential: vec!["c18_states", "c18_supply_delta_checked", "c18_allowance_spend_checked", "c18_burn_triggers_check_slashing", "c18_mint_attempts", "c18_burn_attempts"],
+            }
+        }
+        "C19" => {
+            let mut jobs = vec![];
+            let cfgs: Vec<(&'static str, &'static str)> = if q { vec![("0.05", "1"), ("0.5", "0.75")] } else { vec![("0.05", "1"), ("0.5", "0.75"), ("0.05", "1.5"), ("0", "1"), ("1", "1")] };
+            for (kr, pr) in cfgs {
+                jobs.push(bfs(
+                    hub(&format!("c19-keeper{}-price{}", kr, pr), |h| {
+                        h.arm.c19 = true;
+                        h.keeper_rate = kr;
+                        h.price = pr;
+                        h.with_rewards = true;
+                        h.with_registry = true;
+                        h.with_convert = false;
+                        h.with_withdraw = false;
+                        h.bond_amounts = vec![100];
+                        h.budget = 1;
+                        h.seeds = if q { vec!["funded", "inflight"] } else { vec!["funded", "inflight", "three_vals", "slashed_unseen"] };
+                        h.reward_amounts = vec![("val1", USEI, 1000), ("val2", KUSD, 400), ("val1", USEI, 400_000_000_000_000_000), ("val2", USEI, 7), ("val1", KUSD, 19), ("val2", USEI, 1)];
+                    }),
+                    tier.pick(4, 5),
+                    secs / 2.0,
+                ));
+            }
+            Check {
+                id: "C19",
+                jobs,
+                rule: "hub-core exploration (bond, unbond, time, slashing, registry add/remove) with reward accrual of 1, 7, 19, 400, 1000 and 4e17 coins of either denom on either validator, under (keeper rate, price) configurations {(0.05,1),(0.5,0.75)} quick plus {(0.05,1.5),(0,1),(1,1)} thorough; UpdateGlobalIndex by the updater (and the one issued by the registry during RemoveValidator) is available in every state and every execution of it is checked against the bank, staking and distribution ledgers and the reward contract's holder accounting; non-trivial = an index update checked or failed".into(),
+                assumptions: envelope(),
+                essential: vec!["c19_update_checked", "c19_update_with_pending_rewards", "c19_update_via_registry", "c19_rewards_reached_bsei_holders"],
+            }
+        }
         "C20" => Check {
             id: "C20",
             jobs: vec![
